@@ -44,7 +44,7 @@ CLASSES = [
     "trunc", "trunc_parses", "subst_breaks_json", "subst_parses_different_value", "subst_parses_same_value", "invalid_utf8",
     "deleted", "swapped", "type_change", "reformat_not_damage", "nondict_json", "duplicate_key", "renamed_dir", "with_cache",
     "without_cache", "partial_cache", "multi_job", "repair_mixed_repairable_and_not", "rename_onto_cached_id",
-    "repair_all_expected", "repair_raises_for_unrepairable", "nondict_in_matching_dir", "bare_job",
+    "repair_all_expected", "repair_raises_for_unrepairable", "nondict_in_matching_dir", "bare_job", "cache_updated_twice",
 ]
 ASSUMPTIONS = [
     "a job is damaged iff its state point file is absent, not UTF-8, not JSON, not a JSON object, or does not hash to the directory name",
@@ -160,10 +160,10 @@ def _dedupe(jobs):
     return out
 
 
-def build(ctx, jobs, cache, late, ghost, bare=()):
+def build(ctx, jobs, cache, late, ghost, bare=(), recache=False):
     import signac
 
-    key = (ctx.scratch, jdump([jobs, cache, late, ghost, sorted(bare)]))
+    key = (ctx.scratch, jdump([jobs, cache, late, ghost, sorted(bare), bool(recache)]))
     b = _BUILT.get(key)
     if b is not None and os.path.isdir(b.root):
         _BUILT.move_to_end(key)
@@ -184,6 +184,9 @@ def build(ctx, jobs, cache, late, ghost, bare=()):
         job.doc.update({"job": i, "v": [1, 2.5, "x"]})
         fsutil.write_file(job.fn("data.bin"), b"\x00\x01payload-%d\n" % i)
         fsutil.write_file(job.fn("sub/more.txt"), b"more %d" % i)
+        if i % 2 == 0:
+            # what an editor leaves next to a hand-edited state point file: a user's file like any other
+            fsutil.write_file(job.fn(SP_FILE + "~"), b'{"edited": "by hand %d"}' % i)
 
     first = [i for i in range(len(jobs)) if not (cache and i in late)]
     for i in first:
@@ -198,6 +201,10 @@ def build(ctx, jobs, cache, late, ghost, bare=()):
         for i in range(len(jobs)):
             if i in late:
                 make(i)
+        if recache:
+            # update-cache is run once more after the late jobs were created and the ghost was removed: every
+            # job that exists now is "known from the cache"
+            signac.Project(b.root).update_cache()
     b.snaps = [fsutil.snapshot(os.path.join(b.ws, i)) for i in b.ids]
     b.sp_bytes = [s[SP_FILE][1] for s in b.snaps]
     b.cache_bytes = None
@@ -207,7 +214,10 @@ def build(ctx, jobs, cache, late, ghost, bare=()):
         with open(fn, "rb") as f:
             b.cache_bytes = f.read()
         b.cache = json.loads(gzip.decompress(b.cache_bytes).decode("utf-8"))
-    if cache and set(b.cache) != {b.ids[i] for i in first} | ({b.ghost_id} if ghost else set()):
+    if cache and recache:
+        # (whether the file really lists exactly these is C08's business; C09 takes "update_cache() ran" as "known")
+        b.cache = {b.ids[i]: json.loads(json.dumps(jobs[i])) for i in range(len(jobs))}
+    elif cache and set(b.cache) != {b.ids[i] for i in first} | ({b.ghost_id} if ghost else set()):
         raise HarnessError("cache file after construction lists %r" % sorted(b.cache))
     _BUILT[key] = b
     while len(_BUILT) > _BUILT_MAX:
@@ -379,7 +389,10 @@ def run_case(case, ctx):
     bare = sorted({int(i) % n for i in case.get("bare", []) if isinstance(i, int)})
     if bare:
         cl.add("bare_job")
-    b = build(ctx, jobs, cache, late, ghost, bare)
+    recache = bool(case.get("recache")) and cache
+    if recache:
+        cl.add("cache_updated_twice")
+    b = build(ctx, jobs, cache, late, ghost, bare, recache)
     restore(b)
     ws = b.ws
     cl.add("with_cache" if cache else "without_cache")
@@ -746,8 +759,9 @@ def cases(draw):
         if f.get("to") == "ghost" and not ghost:
             f["to"] = "fresh"
         faults.append(f)
+    recache = cache and draw(st.integers(0, 2)) == 0
     bare = [i for i in range(len(jobs)) if draw(st.integers(0, 3)) == 0]
-    return {"jobs": jobs, "cache": cache, "late": sorted(late), "ghost": ghost, "faults": faults, "bare": bare}
+    return {"jobs": jobs, "cache": cache, "late": sorted(late), "ghost": ghost, "faults": faults, "bare": bare, "recache": recache}
 
 
 CONSTRUCTED = [
@@ -785,6 +799,11 @@ CONSTRUCTED = [
      "faults": [{"job": 0, "kind": "trunc", "at": 3}, {"job": 1, "kind": "delete"}, {"job": 2, "kind": "trunc", "at": 5}]},
     {"jobs": [SHAPES[0], SHAPES[1], SHAPES[9]], "cache": True, "late": [2], "ghost": False,
      "faults": [{"job": 0, "kind": "trunc", "at": 3}, {"job": 1, "kind": "delete"}, {"job": 2, "kind": "trunc", "at": 5}]},
+    # one job removed and one created between two cache updates (equal counts): the late job is known from the cache
+    {"jobs": [SHAPES[0], SHAPES[1], SHAPES[9]], "cache": True, "late": [2], "ghost": True, "recache": True,
+     "faults": [{"job": 0, "kind": "trunc", "at": 3}, {"job": 2, "kind": "delete"}]},
+    {"jobs": [SHAPES[0], SHAPES[9]], "cache": True, "late": [1], "ghost": True, "recache": True, "bare": [1],
+     "faults": [{"job": 1, "kind": "replace", "how": "type_change", "with": 0}]},
 ]
 
 
